@@ -24,6 +24,7 @@ import (
 	"runtime"
 	"strconv"
 	"strings"
+	"sync"
 	"time"
 
 	"verif/harness/hx"
@@ -51,6 +52,7 @@ type desc struct {
 	NoMarch bool        `json:"no_march,omitempty"` // marching cases: only AddField vs AddFieldParallel
 	Seam    bool        `json:"seam,omitempty"`     // marching cases: surface extremes placed around a block border
 	ParOnly bool        `json:"par_only,omitempty"` // marching cases for the -race binary: parallel variants only
+	Ops     []opDesc    `json:"ops,omitempty"`      // marching cases: a sequence of add / march operations on one canvas
 	Race    bool        `json:"race,omitempty"`     // replay: execute with the -race binary
 	RaceSub bool        `json:"race_sub,omitempty"` // part of the subset executed by the -race binary in this tier
 	Report  string      `json:"report,omitempty"`   // race cases: the detector's report (informational)
@@ -259,6 +261,25 @@ func execute(d desc) wresult {
 		case "panic":
 			w = panicCase(d)
 		case "march":
+			if len(d.Ops) > 0 {
+				outs := runSequence(d)
+				for k, o := range outs {
+					ws := wcase{Kind: "march-seq", Coq: o.coq, Nontriv: o.tris > 0 && o.blocks >= 2 && k > 0, Note: o.detail}
+					res.Counts[fmt.Sprintf("march-seq:step=%d", k)]++
+					if k+1 < len(outs) {
+						if !seen[ws.Coq] {
+							seen[ws.Coq] = true
+							res.Cases = append(res.Cases, ws)
+						}
+					} else {
+						w = ws
+					}
+				}
+				if len(outs) == 0 {
+					w = wcase{Kind: "march-seq", Coq: "CRace 0 0"}
+				}
+				break
+			}
 			o := runMarch(d)
 			w = wcase{Kind: "march", Coq: o.coq, Nontriv: (o.tris > 0 || d.NoMarch) && o.blocks >= 2}
 			if !o.marchEq || !o.canvasEq {
@@ -296,6 +317,14 @@ func executeRace(d desc) string {
 		case "panic":
 			continue
 		case "march":
+			if len(d.Ops) > 0 {
+				for _, o := range runSequence(d) {
+					if !o.marchEq || !o.canvasEq {
+						return "sequence under -race: " + o.detail
+					}
+				}
+				continue
+			}
 			o := runMarch(d)
 			if !o.marchEq || !o.canvasEq {
 				return "march under -race: " + o.detail
@@ -478,6 +507,78 @@ func seamPlan(thorough bool) []desc {
 		}
 	}
 	return out
+}
+
+// ---- operation sequences ----------------------------------------------------------------------------------
+func addOp(f fieldDesc, par bool) opDesc { return opDesc{Op: "add", Field: &f, Par: par} }
+func marchOp(c float64) opDesc           { return opDesc{Op: "march", Cutoff: c} }
+
+// a sphere well inside the block below the border (other axes as the seam slots)
+func innerSphere(axis, border int, base [3]int, slot int) fieldDesc {
+	f := seamSphere(axis, +1, border, -0.5, slot, base)
+	f.C[axis] -= 40 // maximum 40.5 cells below the border
+	f.Lo[axis], f.Hi[axis] = f.C[axis]-10, f.C[axis]+10
+	return f
+}
+
+// clip a field's box so that its canvas bounds begin (side -1) or end (side +1) exactly on the border:
+// the edit is then stored entirely on one side of it
+func clipAt(f fieldDesc, axis, side, border int) fieldDesc {
+	if side < 0 {
+		f.Lo[axis] = border + 1 // canvas min = Lo-1 = border
+	} else {
+		f.Hi[axis] = border - 1 // canvas max = Hi+1 = border
+	}
+	return f
+}
+
+// march, edit only the neighbour block (the surface reaches into the lower block's seam layer), march again with
+// the same and with another cutoff, edit across the border, march again
+func seamSequence(axis, border int, base [3]int, nfun int, par bool) desc {
+	d := desc{Entry: "march", NFun: nfun, Seam: true}
+	up := clipAt(seamSphere(axis, -1, border, -0.5, 1, base), axis, -1, border)   // stored in the upper block only
+	low := clipAt(seamSphere(axis, +1, border, -0.25, 2, base), axis, +1, border) // stored in the lower block only, ends on the border
+	both := seamSphere(axis, -1, border, -1.25, 3, base)                          // crosses the border
+	d.Ops = []opDesc{
+		addOp(innerSphere(axis, border, base, 0), par), marchOp(0),
+		addOp(up, par), marchOp(0), marchOp(-1.5),
+		addOp(low, !par), addOp(both, par), marchOp(0),
+	}
+	return d
+}
+
+func randomSequence(r *hx.Rng) desc {
+	axis := r.Intn(3)
+	border := hx.Pick(r, []int{-100, 0, 100, 200})
+	base := [3]int{0, 0, 0}
+	if r.Bool() {
+		base = [3]int{-100, -100, -100}
+	}
+	d := desc{Entry: "march", NFun: 1, Seam: true}
+	if r.Chance(1, 5) {
+		d.NFun = 2
+	}
+	cut := func() float64 { return hx.Pick(r, []float64{0, 0, 0, -1.5, -0.75}) }
+	if r.Bool() {
+		d.Ops = append(d.Ops, addOp(innerSphere(axis, border, base, 0), r.Bool()))
+	} else {
+		d.Ops = append(d.Ops, addOp(seamSphere(axis, hx.Pick(r, []int{-1, 1}), border, hx.Pick(r, seamOut), 0, base), r.Bool()))
+	}
+	d.Ops = append(d.Ops, marchOp(cut()))
+	slot := 1
+	for k, n := 0, r.Range(1, 3); k < n; k++ {
+		side := hx.Pick(r, []int{-1, -1, 1})
+		f := seamSphere(axis, side, border, hx.Pick(r, append(append([]float64{}, seamIn...), seamOut...)), slot%4, base)
+		if r.Chance(2, 3) {
+			f = clipAt(f, axis, side, border)
+		}
+		slot++
+		d.Ops = append(d.Ops, addOp(f, r.Bool()), marchOp(cut()))
+		if r.Chance(1, 3) {
+			d.Ops = append(d.Ops, marchOp(cut()))
+		}
+	}
+	return d
 }
 
 // random placement: 1-3 small spheres next to random borders of random axes, extremes drawn from the lists above or
@@ -692,6 +793,30 @@ func buildPlan(tier string, seed uint64, n int) []desc {
 		d.RaceSub = thorough && k%8 == 0
 		plan = append(plan, d)
 	}
+	// sequences of operations on one canvas
+	for axis := 0; axis < 3; axis++ {
+		base := [3]int{0, 0, 0}
+		if axis == 1 {
+			base = [3]int{-100, -100, -100}
+		}
+		d := seamSequence(axis, []int{100, 0, -100}[axis], base, 1+axis/2, axis != 1)
+		plan = append(plan, d)
+		if thorough {
+			for _, b := range []int{-100, 0, 100, 200} {
+				d := seamSequence(axis, b, base, 1, b%200 == 0)
+				d.Procs = []int{1, 2, 4, 0}[(b+100)/100]
+				d.RaceSub = b == 100
+				plan = append(plan, d)
+			}
+		}
+	}
+	nseq := 2
+	if thorough {
+		nseq = 30
+	}
+	for k := 0; k < nseq; k++ {
+		plan = append(plan, randomSequence(r))
+	}
 	// more jobs than pool workers.  AddFieldParallel and marchFloat1Parallel start runtime.NumCPU() workers
 	// (GOMAXPROCS does not change that): a tube along one axis is ONE field with one job per spanned chunk and
 	// attribute, and every spanned block carries surface, so some worker takes a second job / block.
@@ -854,6 +979,11 @@ type childReport struct {
 	ran     int
 	failed  string // the child could not be driven to the end
 }
+
+var (
+	sliceMu    sync.Mutex
+	sliceTimes []string
+)
 
 var reMarker = regexp.MustCompile(`^@@(BEGIN|END|DONE)\s*(\d*)`)
 
@@ -1043,17 +1173,41 @@ func main() {
 			break
 		}
 	}
-	cuts := func(race bool, parts int) []int { // boundaries that spread the marching items evenly by count
-		var idx []int
+	weight := func(d desc) int { // rough cost of a marching item in block marches
+		switch {
+		case d.NoMarch:
+			return 1 + d.Reps
+		case len(d.Ops) > 0:
+			w := 0
+			for _, op := range d.Ops {
+				if op.Op == "march" {
+					w += 3
+				}
+			}
+			return w
+		case len(d.Fields) > 0 && d.Fields[0].Tube > 0:
+			return 14
+		case d.Seam:
+			return 4
+		}
+		return 5
+	}
+	cuts := func(race bool, parts int) []int { // boundaries that spread the marching items evenly by estimated cost
+		total := 0
 		for i := split; i < len(plan); i++ {
-			if !race || plan[i].RaceSub {
-				idx = append(idx, i)
+			if (!race || plan[i].RaceSub) && (race || !plan[i].ParOnly) {
+				total += weight(plan[i])
 			}
 		}
 		out := []int{0, split}
-		for p := 1; p < parts; p++ {
-			if k := p * len(idx) / parts; k > 0 && k < len(idx) && idx[k] > out[len(out)-1] {
-				out = append(out, idx[k])
+		acc, p := 0, 1
+		for i := split; i < len(plan) && p < parts; i++ {
+			if (!race || plan[i].RaceSub) && (race || !plan[i].ParOnly) {
+				if acc >= p*total/parts && i > out[len(out)-1] {
+					out = append(out, i)
+					p++
+				}
+				acc += weight(plan[i])
 			}
 		}
 		return append(out, len(plan))
@@ -1084,7 +1238,13 @@ func main() {
 		c := cuts(race, parts)
 		ch := make(chan childReport, len(c))
 		for k := 0; k+1 < len(c); k++ {
-			go func(from, to int) { ch <- driveSlice(bin, race, run, "", from, to, deadline) }(c[k], c[k+1])
+			go func(from, to int) {
+				r := driveSlice(bin, race, run, "", from, to, deadline)
+				sliceMu.Lock()
+				sliceTimes = append(sliceTimes, fmt.Sprintf("%s[%d,%d)=%.1fs", map[bool]string{false: "n", true: "race"}[race], from, to, time.Since(t0).Seconds()))
+				sliceMu.Unlock()
+				ch <- r
+			}(c[k], c[k+1])
 		}
 		total := childReport{results: map[int]wresult{}, crashes: map[int]string{}, races: map[int]string{}, nraces: map[int]int{}, allrace: map[int][]string{}}
 		for k := 0; k+1 < len(c); k++ {
@@ -1096,7 +1256,7 @@ func main() {
 	if *fRaceBin != "" {
 		go func() { raceCh <- runSlices(*fRaceBin, true, 2) }()
 	}
-	rep := runSlices(self, false, 3)
+	rep := runSlices(self, false, 4)
 	run.Extra["wall_s_normal_workers"] = math.Round(time.Since(t0).Seconds()*10) / 10
 	for i, d := range plan {
 		addPlain(run, d, i, rep)
@@ -1133,6 +1293,7 @@ func main() {
 		run.Extra["race_cases_executed"] = 0
 		run.Extra["race_note"] = "no -racebin given: race detection not run"
 	}
+	run.Extra["slice_done_at"] = sliceTimes
 	run.Extra["plan_items"] = len(plan)
 	run.Extra["gomaxprocs_default"] = runtime.NumCPU()
 	run.Finish()
